@@ -331,6 +331,7 @@ int main(int argc, char** argv) {
     int crashes = 0;
     long timeout_at = -1;
     int timeout_tries = 0;
+    int confirmed_timeouts = 0;   // once a time-out has been confirmed, later ones are taken at the first occurrence
     const int kMaxCrashes = 40;
     const long n = static_cast<long>(cmds.size());
     while (start < n) {
@@ -366,15 +367,16 @@ int main(int argc, char** argv) {
         std::string why = classify(errfile, status);
         // On an oversubscribed (virtualised) machine even CPU-time accounting is inflated now and then: a time-out
         // is reported only if the same operation exceeds the watchdog three times in a row (a loop always does).
-        if (why == "timeout" && (i != timeout_at || ++timeout_tries < 3)) {
+        if (why == "timeout" && confirmed_timeouts == 0 && (i != timeout_at || ++timeout_tries < 3)) {
             if (i != timeout_at) { timeout_at = i; timeout_tries = 1; }
             start = i;
             continue;
         }
+        if (why == "timeout") ++confirmed_timeouts;
         crash_event(cmds[i], phase == 1 ? "enc" : phase == 2 ? "dec" : "driver", why, false);
         start = i + 1;
-        if (++crashes >= kMaxCrashes) {
-            // every dead worker costs a fork of a sanitizer-instrumented process: after kMaxCrashes the rest of
+        if (++crashes >= kMaxCrashes || confirmed_timeouts >= 4) {
+            // every dead worker costs a fork of a sanitizer-instrumented process: after kMaxCrashes (or 4 time-outs) the rest of
             // the script is not executed (the verdict is a violation anyway); the trace says so explicitly
             for (long j = start; j < n; ++j) { ev::Ev s("skipped"); s.i("line", j + 1).emit(); }
             break;
